@@ -10,12 +10,22 @@ mkdir -p "$W" "$V/evidence"
 trap 'rm -rf "$W"' EXIT
 cd $V/harness || exit 2
 # 1. overlay (map-iteration seam, global table) regenerated from /repo's current tree
-if ! go run ./cmd/instr -repo /repo -out "$W/ov" -seam $V/harness/seamsrc > "$W/instr.log" 2>&1; then
+POINTS=""
+if [ "$ID" = "C19" ]; then POINTS="-points"; fi
+if ! go run ./cmd/instr -repo /repo -out "$W/ov" -seam $V/harness/seamsrc $POINTS > "$W/instr.log" 2>&1; then
   echo "HARNESS: instrumentation failed" >&2; cat "$W/instr.log" >&2; exit 2
 fi
 # 2. build the checker against /repo with hooks on
 if ! go build -tags verif -overlay "$W/ov/overlay.json" -o "$W/vcheck" ./cmd/vcheck > "$W/build.log" 2>&1; then
   echo "HARNESS: build failed" >&2; cat "$W/build.log" >&2; exit 2
+fi
+# 2b. C19 only: the supplementary free-running race-detector pass (separate binary, no hooks)
+if [ "$ID" = "C19" ] && [ "$MODE" != "replay" ]; then
+  if go build -race -o "$W/racepass" ./cmd/racepass > "$W/race.log" 2>&1; then
+    export VERIF_RACEPASS="$W/racepass"
+  else
+    echo "HARNESS: race pass build failed" >&2; cat "$W/race.log" >&2; exit 2
+  fi
 fi
 # 3. run
 "$W/vcheck" "$ID" "$MODE" "$@"
